@@ -830,6 +830,20 @@ func Execute(t *testing.T, prop string, plan *Plan) (res *runner.Result) {
 		if e.failed || e.stopAfterStep {
 			break
 		}
+		if e.cfg.ROCheck && e.db != nil && e.rng.Chance(0.05) {
+			// unclean shutdown: the directory as a process kill between two operations leaves it (nothing closed,
+			// open appenders lost), compared the same way as after a clean shutdown
+			img := e.scratch("killimg")
+			if err := simfs.CopyTree(e.dir, img); err != nil {
+				panic("harness: " + err.Error())
+			}
+			e.res.Count("fault:process-kill-image", 1)
+			e.readOnlyCheck(img, fmt.Sprintf("process kill after op %d", i))
+			os.RemoveAll(img)
+			if e.failed {
+				break
+			}
+		}
 	}
 	if !e.failed {
 		e.closeApps(false)
